@@ -112,7 +112,7 @@ func planC14(tier string, root *simcore.RNG) *plan {
 	// arbitrary bytes and random token soups (no fault operator needed: the base is the fault)
 	nrand := 150
 	if thorough {
-		nrand = 3000
+		nrand = 15000
 	}
 	for i := 0; i < nrand; i++ {
 		r := root.Fork()
@@ -127,7 +127,7 @@ func planC14(tier string, root *simcore.RNG) *plan {
 	// S: sampled multi-fault sequences, incl. the shipped files
 	nsample := 1500
 	if thorough {
-		nsample = 40000
+		nsample = 200000
 	}
 	bases := []string{bs("bin", 0), bs("bin", 1), bs("bin", 7), bs("bin", 40), bs("bin", 300), bs("stream", 120), bs("ascii", 1), bs("ascii", 4), bs("ascii", 30),
 		"shipped:monkey.stl", "shipped:bottle.stl", "shipped:teapot.stl",
